@@ -650,11 +650,14 @@ func c08Hops(amt lnwire.MilliSatoshi, feeDelta int64, cltvDefect uint32,
 	finalCltv := height + testInvoiceCltvExpiry
 	total := finalCltv + delta - cltvDefect
 
+	// A negative total (incoming below outgoing) is allowed: the forwarder
+	// must refuse it.
 	fee := int64(ExpectedFee(firstLink.cfg.FwrdingPolicy, amt)) + feeDelta
-	if fee < 0 {
-		fee = 0
+	in := int64(amt) + fee
+	if in < 1 {
+		in = 1
 	}
-	inAmt := amt + lnwire.MilliSatoshi(fee)
+	inAmt := lnwire.MilliSatoshi(in)
 
 	mk := func(next lnwire.ShortChannelID, fwd lnwire.MilliSatoshi,
 		cltv uint32) *hop.Payload {
